@@ -74,6 +74,41 @@ def state_matrix(r, res, tabs):
                         w.thread_op(0, "e")
                 res.dist("case:state-matrix")
                 out.append((sysd, w.events, w.expected(), "; ".join(w.illegal)))
+    # a thread that the kernel switched out (KCO) may not emit nOS-V events until it is back (KCI), whatever
+    # its state was when it was switched out (running, cooling, warming); continued as if accepted
+    # (seeded C08-8: KCO recorded "out of CPU" only for a RUNNING thread)
+    tab = tabs["nosv"]
+    rows = [rw for rw in tab["table"] if rw[3] == 1 and chr(rw[0]) in histories.CATS.get("nosv", "".join(chr(x[0]) for x in tab["table"]))]
+    rows = [rw for rw in rows if any(p[3] == 2 and p[2] == rw[2] and p[4] == rw[4] for p in tab["table"])]
+    for path in ("", "c", "pw"):
+        for row in (rows[:1] + [r.choice(rows)]) if rows else []:
+            pop = next(p for p in tab["table"] if p[3] == 2 and p[2] == row[2] and p[4] == row[4])
+            require = {"ovni": tabs["ovni"]["version"], "nosv": tab["version"], "kernel": tabs["kernel"]["version"]}
+            sysd = emu_lib.Sys([("node0", [(100, [10])], [0])], require)
+            w = histories.Walk2(r, sysd, {"nosv": tab})
+            w.thread_op(0, "x")
+            for op in path:
+                w.thread_op(0, op)
+            w.emit(0, "KCO")
+            M = chr(tab["char"])
+            w.emit(0, M + chr(row[0]) + chr(row[1]))
+            w.emit(0, M + chr(pop[0]) + chr(pop[1]))
+            w.emit(0, "KCI")
+            guard = 0
+            while w.st[0] != "running" and guard < 3:
+                guard += 1
+                ops = [o for o in "rw" if w.st[0] in histories.LEGAL[o]]
+                if not ops:
+                    break
+                op = "r" if "r" in ops else "w"
+                w.emit(0, "OH" + op)
+                w.st[0] = histories.LEGAL[op][w.st[0]]
+            w.emit(0, "OHe")
+            w.st[0] = "dead"
+            why = "t0: nOS-V event from a thread the kernel switched out (state before KCO: %s)" % (
+                {"": "running", "c": "cooling", "pw": "warming"}[path])
+            res.dist("case:out-of-cpu-matrix")
+            out.append((sysd, w.events, "reject", why))
     # the same for the LEAVE event: enter while running, change the thread state, then the matching leave
     for model in ["nosv", "nanos6", "nodes", "tampi", "mpi", "openmp"]:
         tab = tabs[model]
